@@ -716,9 +716,10 @@ class BradleyTerryPart:
                         team_i.rank,
                     )
                     delta += (
-                        ((gamma_value * sigma_squared_to_ciq) / c_iq)
+                        (sigma_squared_to_ciq / c_iq)
                         * p_iq
                         * (1 - p_iq)
+                        * gamma_value
                     )
 
                 return omega, delta
